@@ -241,6 +241,8 @@ class Engine:
             a = self.rd_operand(f, st, rv["a"])
             if rv["op"] == "Not" and a[0] == "unop" and a[1] == "Not":
                 return a[2]
+            if rv["op"] == "Not" and a[0] == "const" and len(a) > 2 and a[2] == "bool":
+                return ("const", 0 if a[1] else 1, "bool")
             return ("unop", rv["op"], a)
         if k == "discr":
             return ("discr", self.rd_place(f, st, rv["place"]))
@@ -388,7 +390,9 @@ class Engine:
                 rest = [mp.get(n, n) for n in rest]
             names = sorted({n for n, x in named.items() if x == nxt} | ({n for n in rest} if other == nxt else set()))
             if not names:
-                return other == nxt          # nothing known about this edge
+                # every variant of the type has an arm of its own elsewhere: the `otherwise` edge of this switch (the `_`
+                # arm of a tuple match reached "through" an exhausted discriminant) is never taken
+                return False
             return self.add_enum(st, scrut, tuple(names), (f.name, b))
         # integer switch on a known constant
         if e[0] == "const" and isinstance(e[1], int):
@@ -408,6 +412,8 @@ class Engine:
         return True
 
     def add_bool(self, st, e, truth, where):
+        while e[0] == "unop" and e[1] == "Not":
+            e, truth = e[2], not truth                               # one spelling of a negated test
         if e[0] == "const" and isinstance(e[1], (bool, int)):
             return bool(e[1]) == truth
         if e[0] == "binop" and e[1] == "Ne":
@@ -592,6 +598,12 @@ class Engine:
                 cargs = [x for n, x in tup[3]]
                 return with_closure(args[0], cargs, [], lambda v: v)
             return None
+        if m == "std::option::Option::<std::option::Option<T>>::flatten" and len(args) == 1:
+            x = args[0]
+            inner = payload(x, "Some")
+            return [([enum_atom(x, "Some"), enum_atom(inner, "Some")], [], [], inner),
+                    ([enum_atom(x, "Some"), enum_atom(inner, "None")], [], [], NONE),
+                    ([enum_atom(x, "None")], [], [], NONE)]
         opt = m.startswith("std::option::Option::<T>::")
         res = m.startswith("std::result::Result::<T, E>::")
         if opt:
@@ -635,6 +647,10 @@ class Engine:
             if meth == "or_else" and len(args) == 2:
                 d = with_closure(args[1], [], none, lambda v: v)
                 return None if d is None else d + [(some, [], [], x)]
+            if meth == "or" and len(args) == 2:
+                return [(some, [], [], x), (none, [], [], args[1])]
+            if meth == "and" and len(args) == 2:
+                return [(some, [], [], args[1]), (none, [], [], NONE)]
             if meth == "ok_or" and len(args) == 2:
                 return [(some, [], [], OK(pl)), (none, [], [], ERR(args[1]))]
             if meth == "ok_or_else" and len(args) == 2:
@@ -677,6 +693,13 @@ class Engine:
             if len(args) == 2:
                 r = with_closure(args[1], [], [("bool", args[0], True, w)], SOME)
                 return None if r is None else r + [([("bool", args[0], False, w)], [], [], NONE)]
+        # `opt.into_iter().for_each(f)` / `opt.iter().for_each(f)`: f runs once on the payload iff the option is Some
+        if m in ("std::iter::Iterator::for_each", "std::iter::Iterator::map") and len(args) == 2 and args[0][0] == "call" and len(args[0][2]) == 1 and \
+                (args[0][1].startswith("<std::option::Option<T> as std::iter::IntoIterator>::into_iter") or
+                 args[0][1] in ("std::option::Option::<T>::iter", "std::option::Option::<T>::iter_mut")) and m.endswith("for_each"):
+            x = args[0][2][0]
+            r = with_closure(args[1], [payload(x, "Some")], [enum_atom(x, "Some")], lambda v: ("unit",))
+            return None if r is None else r + [([enum_atom(x, "None")], [], [], ("unit",))]
         if m.endswith("bool>::then_some") and len(args) == 2:
             return [([("bool", args[0], True, w)], [], [], SOME(args[1])), ([("bool", args[0], False, w)], [], [], NONE)]
         return None
@@ -792,6 +815,48 @@ def ipaths(F, f, stop=None, depth=3, start=0, ends=None, avoid=(), limit=3000, e
         engine = None
         d -= 1
     return []
+
+
+def focus(F, targets, also=None):
+    """stop predicate that keeps symbolic execution on what a rule is about: a callee is opaque when it is one of
+    `targets`, when `also(name)` says so, or when no target is reachable from it through the local call graph (closures
+    it creates included).  A function that invokes one of its own parameters (a closure-taking helper) is never pruned:
+    what it reaches depends on the closure it is given."""
+    targets = frozenset(targets)
+    cg = F.__dict__.get("_focus_cg")
+    if cg is None:
+        rev, hof = {}, set()
+        for n, g in F.fns.items():
+            for b, t in g.calls():
+                c = t.get("rpath")
+                if c in F.fns and t["res"] == "item":
+                    rev.setdefault(c, set()).add(n)
+                if t["res"] in ("unresolved", "virtual") or (t.get("callee") or "").startswith(("std::ops::Fn", "<std::boxed::Box<F, A> as std::ops::Fn")):
+                    hof.add(n)
+            if g.kind == "Closure":
+                par = n[: n.rfind("::{closure#")]
+                rev.setdefault(n, set()).add(par)
+        cg = F.__dict__["_focus_cg"] = (rev, hof)
+    rev, hof = cg
+    relevant = set()
+    work = list(targets)
+    while work:
+        n = work.pop()
+        for c in rev.get(n, ()):
+            if c not in relevant:
+                relevant.add(c)
+                work.append(c)
+    return lambda n: n in targets or bool(also and also(n)) or (n not in relevant and n not in hof)
+
+
+def noop_store(p, tgt, val):
+    """a write that leaves the target as it was on this path: `x.f = x.f` (`.or(self.f)` spelled as an unconditional
+    assignment), or `x.f = None` where the path has just seen `x.f` to be None"""
+    if strip_site(unclone(val)) == strip_site(tgt):
+        return True
+    if val[0] == "agg" and val[2] and not val[3]:
+        return p.variant_of(tgt) == (val[2],)
+    return False
 
 
 def bool_outcomes(p):
